@@ -489,6 +489,7 @@ wait:
 	final := map[string]string{}
 	finalFlushed := map[string]string{}
 	finalReopened := map[string]string{}
+	finalCollected := map[string]string{}
 	var census map[string]interface{}
 	if len(stuck) == 0 && !closing {
 		seen := map[string]bool{}
@@ -535,6 +536,14 @@ wait:
 			} else {
 				readAll(s2, finalReopened)
 				census = freeCensus(dir, s2, append(keys, []byte{0x12, 6, 9, 9, 9, 0xfe, 0xfe, 0xfe}), int64(atoi("pmax")))
+				// and two further primary GC cycles (the second applies what the first one freed): a location that was freed although
+				// the index names it is destroyed now, and shows as a lost key
+				if mp, ok := s2.Primary().(*mhprimary.MultihashPrimary); ok {
+					mp.GC(context.Background(), 50)
+					s2.Flush()
+					mp.GC(context.Background(), 50)
+					readAll(s2, finalCollected)
+				}
 				s2.Close()
 			}
 		}
@@ -556,7 +565,7 @@ wait:
 		outs = append(outs, tout{t.Name, t.Op.Kind, hex.EncodeToString(t.Op.Key), hex.EncodeToString(t.Op.Val), t.Status, t.Res, t.Found, t.Out, t.Start, t.End})
 	}
 	var sb bytes.Buffer
-	json.NewEncoder(&sb).Encode(map[string]interface{}{"threads": outs, "stuck": stuck, "events": log, "final": final, "final_flushed": finalFlushed, "final_reopened": finalReopened, "census": census, "flushes_in_free_run": nflush,
+	json.NewEncoder(&sb).Encode(map[string]interface{}{"threads": outs, "stuck": stuck, "events": log, "final": final, "final_flushed": finalFlushed, "final_reopened": finalReopened, "final_collected": finalCollected, "census": census, "flushes_in_free_run": nflush,
 		"quiet_timeouts": quietTimeouts, "quiet_threads": quietThreads, "unfinished_at_free_run": unfinishedAtFreeRun, "must_release": mustRelease, "unreleased": unreleased})
 	os.Stdout.Write(sb.Bytes())
 	if len(stuck) > 0 {
